@@ -79,6 +79,7 @@ def run(ctx):
     l4_no_panic_in_listener_task(ctx, service)
     l7_shared_lock_never_wedged(ctx)
     l9_counted_slots_are_released_on_every_exit(ctx)
+    l10_no_peer_chosen_recursion_depth(ctx)
     ctx.floor("L1", "per-flow loops (association task, binding reply task, ...)", 1, len(perflow))
     for (b, (h, body), src) in service:
         src_results = set()
@@ -597,3 +598,22 @@ def l9_counted_slots_are_released_on_every_exit(ctx):
                "flow leaks one slot, and when as many have accumulated as the bound allows the accept loop refuses every new connection - one kind of failing flow takes the "
                "service down for all others")
     ctx.ob("L9", "workspace", "scan", "-", True, f"{n} task bodies release a counted slot", nontrivial=False, ordinal=False)
+
+
+def l10_no_peer_chosen_recursion_depth(ctx):
+    """L10: a stack overflow is not a panic - it aborts the process, every listener and every flow with it. A `poll_*` function that calls itself for
+    every transport message that yields no item lets one peer choose the recursion depth (C07 P4 re-evaluated: there it is a crash of the flow, here
+    it is the outage of the service for everybody)."""
+    prog = ctx.prog
+    n = 0
+    for b in prog.prod_bodies():
+        if b.root != b.defp or not (b.method or "").startswith("poll_") or not b.impl_trait:
+            continue
+        n += 1
+        fb = prog.flat(b.defp)
+        for (blk, c, t) in fb.calls():
+            if prog.body(c.target) is not None and prog.body(c.target).defp == b.defp and "inlined_call" not in t:
+                ctx.ob("L10", b.defp, "poll-fn-does-not-recurse", loc(t["sp"]), False,
+                       f"`{last_seg(b.defp)}` calls itself to go round again: the depth is chosen by the peer (a burst of messages that complete no item) and overflowing a worker's stack "
+                       "aborts the whole process - one connection without credentials takes every listener down")
+    ctx.floor("L10", "poll_* functions of trait impls scanned for self-recursion", 5, n)
